@@ -106,4 +106,115 @@ META = {
             "note": "bounds: see evidence.bounds. " + TRUST},
 }
 
+PNOTE = ("bounds: see evidence.bounds (buffer length per configuration); representation invariant of the parser state and the UF abstraction of the hash "
+         "multiplication (refined before any report) are listed in evidence.assumptions. " + TRUST)
+PLEVEL = ("bounded model checking by induction over parser states: one Parse of the real code from an ARBITRARY parser state (symbolic data, parse position, sizes, flags, "
+          "and completely unconstrained hash/bucket tables) is executed symbolically; because every candidate is re-verified against the bytes the post-condition must "
+          "hold for any table content, so one symbolic step covers every Write/ReadFrom/Reset/Shrink/Parse history. ")
+META.update({
+    "C01": {"level": PLEVEL + "Post-condition: the reference LZ77 expander reproduces Data[W:W+n] from the block.", "note": PNOTE},
+    "C02": {"level": PLEVEL + "Post-condition: Offset/MatchLen/Aux/LitLen ranges of every emitted sequence, with WindowSize symbolic over its whole accepted range.", "note": PNOTE},
+    "C03": {"level": PLEVEL + "Post-condition: n, W, ErrEmptyBuffer, Block.Len and the NoTrailingLiterals rule.", "note": PNOTE},
+    "C14": {"level": PLEVEL + "Here the step is Parse(nil) followed by a regular Parse checked against a decoder that holds the skipped bytes.", "note": PNOTE},
+    "C19": {"level": PLEVEL + "Post-condition: right-maximality of every match and the backward clause of BHP/BDHP.", "note": PNOTE},
+})
+
 NOT_APPLICABLE = {}
+
+
+# ---------------------------------------------------------------- parsers (inductive step)
+
+def hash_cfgs(tier):
+    """(kind, params, L) for the five hash parsers; L = bound on len(Data)."""
+    if tier == "quick":
+        single = [(2, 1, 4), (3, 1, 5), (4, 0, 5)]
+        double = [(2, 3, 1, 4), (3, 4, 1, 5)]
+        bucket = [(2, 1, 2, 3), (2, 1, 1, 4), (3, 1, 1, 5)]
+    else:
+        single = [(2, 0, 6), (2, 2, 5), (3, 1, 7), (3, 2, 6), (4, 1, 7), (5, 1, 7), (8, 1, 9)]
+        double = [(2, 3, 1, 5), (2, 4, 2, 5), (3, 4, 1, 6), (3, 6, 1, 7), (4, 8, 1, 8)]
+        bucket = [(2, 1, 2, 4), (2, 0, 3, 4), (3, 1, 1, 6), (3, 2, 2, 5), (4, 1, 2, 6)]
+    out = []
+    for k in ("HP", "BHP"):
+        for il, hb, L in single:
+            out.append((k, {"inputLen": il, "hashBits": hb}, L))
+    for k in ("DHP", "BDHP"):
+        for il, il2, hb, L in double:
+            out.append((k, {"inputLen": il, "inputLen2": il2, "hashBits": hb}, L))
+    for il, hb, bs, L in bucket:
+        out.append(("BUP", {"inputLen": il, "hashBits": hb, "bucketSize": bs}, L))
+    return out
+
+
+def parse_jobs(tier, prefix="parse", dl=0):
+    jobs = []
+    for kind, params, L in hash_cfgs(tier):
+        L = max(2, L - dl)
+        tag = "-".join("%s%d" % (k[0] + k[-1], v) for k, v in params.items())
+        for ld in range(L + 1):
+            for w in range(ld + 1):
+                if ld >= L - 1:
+                    jobs.append(J("%s%s-%s-ld%d-w%d" % (prefix, kind, tag, ld, w), "zzH_%s%s" % (prefix, kind),
+                                  params=dict(params, L=L, ld=ld, w=w), uf_mul=True))
+            if ld < L - 1:
+                jobs.append(J("%s%s-%s-ld%d" % (prefix, kind, tag, ld), "zzH_%s%s" % (prefix, kind), params=dict(params, L=L, ld=ld), uf_mul=True))
+        # deeper slices that are cheap because most of the buffer is history (w >= 2): they reach the
+        # backward extension of BHP/BDHP and matches whose source was indexed by an earlier call
+        if tier == "quick" and dl == 0 and params["inputLen"] == 2 and kind != "BUP":
+            for w in range(2, L + 2):
+                jobs.append(J("%s%s-%s-ld%d-w%d" % (prefix, kind, tag, L + 1, w), "zzH_%s%s" % (prefix, kind),
+                              params=dict(params, L=L + 1, ld=L + 1, w=w), uf_mul=True))
+    bounds = {"len(Data)": "0..L arbitrary bytes plus the 7 arbitrary margin bytes; L per configuration below", "W": "0..len(Data)", "BlockSize": "1..unparsed+1",
+              "WindowSize, BufferSize": "1..2^32-8 (symbolic, BufferSize >= len(Data))", "ShrinkSize": "0..BufferSize", "Off": "0..2^40", "flags": "0, NoTrailingLiterals",
+              "hash tables": "every entry (pos,value) an arbitrary pair of uint32; bucket indexes arbitrary below BucketSize",
+              "configurations": ["%s %s L=%d" % (k, p, max(2, L - dl)) for k, p, L in hash_cfgs(tier)],
+              "operations": "one Parse from an arbitrary state (inductive step; covers every Write/ReadFrom/Reset/Shrink/Parse history of the five hash parsers, "
+                            "because Parse reads only Data, W, sizes and the tables, and the tables are unconstrained)"}
+    return jobs, bounds
+
+
+PARSE_ASSUME = ["pre-state: 0<=W<=len(Data)<=BufferSize, cap(Data)>=len(Data)+7 (margin bytes arbitrary), table lengths = 1<<HashBits, mask/shift/inputLen as hash.init sets them",
+                "hash multiplication x*prime abstracted as an uninterpreted function during path exploration (sound: more behaviours); every counterexample is re-decided "
+                "with the real 64-bit bvmul before it is reported (CEGAR), and replayed natively",
+                "append growth as measured on go1.23.5", "64-bit int"]
+PARSE_OUTSIDE = ["buffers longer than the bound (8-byte extension loops are reached by the kernel harnesses of C19 only)", "GSAP and OSAP (separate assume/guarantee harnesses)",
+                 "hash tables larger than 4 entries (content is arbitrary, so size only changes which slot is read)", "32-bit platforms"]
+PARSE_REACH = {"zzH_parse" + k: ["end", "match"] for k in ("HP", "BHP", "DHP", "BDHP", "BUP")}
+
+
+def parse_spec(tier, expl, nil=False):
+    jobs, bounds = parse_jobs(tier)
+    reach = dict(PARSE_REACH)
+    if nil:
+        j2, _ = parse_jobs(tier, prefix="parseNil", dl=1)
+        jobs += j2
+        reach.update({"zzH_parseNil" + k: ["end", "match-after-skip"] for k in ("HP", "BHP", "DHP", "BDHP", "BUP")})
+    return {"jobs": jobs, "bounds": bounds, "assumptions": PARSE_ASSUME, "outside": PARSE_OUTSIDE, "explanation": expl, "reach": reach}
+
+
+def spec_C01(tier):
+    return parse_spec(tier, "round trip: the reference LZ77 expander, seeded with Data[:W], applied to the block Parse returns must give exactly Data[W:W+n]")
+
+
+def spec_C02(tier):
+    return parse_spec(tier, "every emitted sequence: 1 <= Offset <= WindowSize, Offset <= Off + buffer position of the match (stream bytes since Reset), "
+                      "MatchLen >= min(3, InputLen), Aux == 0, sum of LitLen <= len(Literals); WindowSize symbolic over 1..2^32-8, i.e. smaller, equal and larger than the buffer")
+
+
+def spec_C03(tier):
+    return parse_spec(tier, "accounting: flags 0 => n == Block.Len(); unparsed data => 1 <= n <= BlockSize, W' = W+n, the block represents exactly Data[W:W+n]; "
+                      "ErrEmptyBuffer iff W == len(Data), then n == 0 and the block is emptied; NoTrailingLiterals with a sequence => no trailing literals and W' at the "
+                      "end of the last match. Contiguity of consecutive blocks follows by induction from W' = W+n")
+
+
+def spec_C14(tier):
+    jobs, bounds = parse_jobs(tier, prefix="parseNil")
+    return {"jobs": jobs, "bounds": bounds, "assumptions": PARSE_ASSUME, "outside": PARSE_OUTSIDE + ["GSAP/OSAP Parse(nil): separate harness"],
+            "explanation": "Parse(nil, flags) from an arbitrary state: n == min(BlockSize, unparsed), W' = W+n, ErrEmptyBuffer iff n == 0; then a regular Parse whose block "
+                           "must be correct for a decoder holding the skipped bytes verbatim (reference expander seeded with Data[:W'])",
+            "reach": {"zzH_parseNil" + k: ["end", "match-after-skip"] for k in ("HP", "BHP", "DHP", "BDHP", "BUP")}}
+
+
+def spec_C19(tier):
+    return parse_spec(tier, "maximality: every emitted match ends at the block end or the next byte differs from the byte Offset back; BHP/BDHP: a literal directly in front "
+                      "of a match never equals the byte Offset before it while that byte is buffered")
